@@ -1,5 +1,5 @@
 # C02 — Per-block atomicity and crash consistency of the balance store.
-from . import runprop
+from . import runprop, ledger
 
 
 def crash(ctx, scenarios, points):
@@ -45,6 +45,10 @@ def run(ctx):
                             "compare again; every crash point is a distinct non-trivial case")
     ctx.proof_stage(extra_targets=["Lemmas/SyncLemmas.vo", "Lemmas/SitesC02.vo"])
     crash(ctx, ["corners"] if ctx.tier == "quick" else ["corners", "eras", "staking", "bank"], 64 if ctx.tier == "quick" else 600)
+    # nothing of a failed attempt stays behind: every block fails once -- at its last statement, and in the middle
+    # of its transaction entries / its grading rows -- and is applied again by the same process
+    ledger.retried(ctx, ["corners"] if ctx.tier == "quick" else ["corners", "eras", "align"],
+                   stmts=("pn_sync_version", "pn_history_transaction", "pn_grade"))
 
 
 def search(ctx, why):
